@@ -28,6 +28,8 @@ def obligations(tier):
         obs.append(Ob('port.N%d' % n, 'C13/port.c', units=U + ['htp_utf8_decoder.c'], models=MODELS, remove=RM, defines={'N': n, 'FA_CAP': n + 2}, unwind=n + 3, tier=t, timeout=to,
                       statement='htp_normalize_parsed_uri: port_number = decimal value of the port text iff 1..65535, else -1 and HTP_HOSTU_INVALID',
                       bounds='port text <= %d bytes, all byte values' % n))
+    obs.append(Ob('hostport.portdigits.N22', 'C13/hostport.c', units=U, models=MODELS, remove=RM, defines={'N': 22, 'FA_CAP': 24, 'PORTDIGITS': 1}, unwind=25, tier='quick', timeout=900, solver='kissat', expect_covers=False,
+                  statement='htp_parse_hostport on host "a" with a long digit port: port_number = value iff 1..65535, else -1 and invalid (no wrap-around)', bounds='"a:" + 0..20 decimal digits'))
     obs.append(Ob('port.digits.N20', 'C13/port.c', units=U + ['htp_utf8_decoder.c'], models=MODELS, remove=RM, defines={'N': 20, 'FA_CAP': 22, 'DIGITS': 1}, unwind=23, tier='quick', timeout=900, solver='kissat',
                   statement='port range check on long digit strings (values around 2^16, 2^31, 2^32, 2^63, 2^64): valid iff 1..65535', bounds='port text = 0..20 decimal digits'))
     return obs
